@@ -73,13 +73,25 @@ func c19Pool(c *vrep.Ctx) {
 		}
 		files = append(files, p)
 	}
-	// sequential reference: one file at a time
+	// reference: the library's Match on each file's bytes (what the tool has to report)
 	cl := mkClassifier()
-	ref := &ClassifierBackend{classifier: cl}
+	var want []string
 	for _, f := range files {
-		ref.classifyLicense(f, headers)
+		body, err := os.ReadFile(f)
+		if err != nil {
+			continue
+		}
+		for _, m := range cl.Match(body).Matches {
+			if !headers && m.MatchType == "Header" {
+				continue
+			}
+			want = append(want, fmt.Sprintf("%s %s/%s/%s conf=%v lines=%d-%d", filepath.Base(f), m.MatchType, m.Name, m.Variant, m.Confidence, m.StartLine, m.EndLine))
+		}
 	}
-	want := renderResults(ref)
+	sort.Strings(want)
+	if len(want) == 0 && nfiles > 0 && contents[0].name == "licensed.txt" {
+		panic("c19_pool is vacuous: the licensed file is not matched")
+	}
 	steps := 0
 	vx.Replay(nil, func(r *vx.Run) {
 		s := vsync.New(r, pol)
@@ -97,7 +109,12 @@ func c19Pool(c *vrep.Ctx) {
 		s := vsync.New(r, pol)
 		b := &ClassifierBackend{classifier: cl}
 		var errs []error
-		s.Main(func() { errs = b.ClassifyLicenses(tasks, files, headers) })
+		var atReturn []string
+		s.Main(func() {
+			errs = b.ClassifyLicenses(tasks, files, headers)
+			// what the caller sees at the moment the call returns (main reads GetResults right away)
+			atReturn = renderResults(b)
+		})
 		msg := ""
 		switch {
 		case s.Panic != "":
@@ -109,8 +126,10 @@ func c19Pool(c *vrep.Ctx) {
 		case s.HorizonHit:
 			msg = "step horizon hit (livelock?)"
 		default:
-			if got := renderResults(b); strings.Join(got, "\n") != strings.Join(want, "\n") {
-				msg = fmt.Sprintf("results %v, sequential per-file results %v", got, want)
+			if strings.Join(atReturn, "\n") != strings.Join(want, "\n") {
+				msg = fmt.Sprintf("when ClassifyLicenses returned GetResults() held %v, the library's per-file Match results are %v", atReturn, want)
+			} else if got := renderResults(b); strings.Join(got, "\n") != strings.Join(want, "\n") {
+				msg = fmt.Sprintf("after all goroutines finished GetResults() holds %v, the library's per-file Match results are %v", got, want)
 			} else if len(errs) != unreadable {
 				msg = fmt.Sprintf("%d errors reported, %d files are unreadable", len(errs), unreadable)
 			}
